@@ -56,6 +56,9 @@ type Plant struct {
 	TA, TB, QA, QB int
 	Rev            bool
 	Subs, Indels   int
+	// Marginal: a copy around the minimum hit length, shorter than it on the target and longer on the
+	// query; its recovery is not demanded, but any hit reported for it must still be sound.
+	Marginal bool
 }
 
 func mutate(rng *rand.Rand, s []byte, subs, indels int) []byte {
@@ -134,7 +137,7 @@ func Case(w *vt.W, rng *rand.Rand, id, maxLen int) {
 			slot := half / nplants
 			qa := half + i*slot + rng.Intn(slot-len(cp)-1)
 			copy(T[qa:qa+len(cp)], cp)
-			plants = append(plants, Plant{a, b, qa, qa + len(cp), rev, subs, indels})
+			plants = append(plants, Plant{a, b, qa, qa + len(cp), rev, subs, indels, false})
 		}
 		Q = T
 	} else {
@@ -146,7 +149,28 @@ func Case(w *vt.W, rng *rand.Rand, id, maxLen int) {
 			qa := used + rng.Intn(len(Q)/nplants-len(cp)-1)
 			copy(Q[qa:qa+len(cp)], cp)
 			used = (i + 1) * len(Q) / nplants
-			plants = append(plants, Plant{a, b, qa, qa + len(cp), rev, subs, indels})
+			plants = append(plants, Plant{a, b, qa, qa + len(cp), rev, subs, indels, false})
+		}
+		if rng.Intn(2) == 0 && minID <= 0.9 {
+			// a marginal repeat: minLen-2 letters of the target, with 5 letters inserted in the query copy
+			ln := minLen - 2
+			ta := rng.Intn(len(T) - ln)
+			cp := append([]byte{}, T[ta:ta+ln]...)
+			for k := 0; k < 5; k++ {
+				pos := (k + 1) * ln / 6
+				cp = append(cp[:pos+k], append([]byte{acgt[rng.Intn(4)]}, cp[pos+k:]...)...)
+			}
+			qa := rng.Intn(len(Q) - len(cp))
+			clash := false
+			for _, pl := range plants {
+				if qa < pl.QB+50 && pl.QA < qa+len(cp)+50 {
+					clash = true
+				}
+			}
+			if !clash {
+				copy(Q[qa:qa+len(cp)], cp)
+				plants = append(plants, Plant{ta, ta + ln, qa, qa + len(cp), false, 0, 5, true})
+			}
 		}
 	}
 	ev := vt.Ev{"id": id, "minlen": minLen, "minid_ppm": int(minID*1e6 + 0.5), "self": self, "tlen": len(T), "qlen": len(Q),
@@ -216,7 +240,7 @@ func Case(w *vt.W, rng *rand.Rand, id, maxLen int) {
 func plantEvs(ps []Plant) []vt.Ev {
 	out := []vt.Ev{}
 	for _, p := range ps {
-		out = append(out, vt.Ev{"ta": p.TA, "tb": p.TB, "qa": p.QA, "qb": p.QB, "rev": p.Rev, "subs": p.Subs, "indels": p.Indels})
+		out = append(out, vt.Ev{"ta": p.TA, "tb": p.TB, "qa": p.QA, "qb": p.QB, "rev": p.Rev, "subs": p.Subs, "indels": p.Indels, "marginal": p.Marginal})
 	}
 	return out
 }
